@@ -50,7 +50,19 @@ META = {
                   "parameter: the observed order must be a permutation of the model's set; the start cell of a sorted ring "
                   "is any cell of the edge); float arithmetic of det_3x3 is exact on the small integer coordinates used; "
                   "`Reals` axioms only in the orientation theorems over R. Orientation: 'outward' = right-hand normal of "
-                  "(a,b,c) points away from the cell's fourth vertex, independent of any sign convention for cells.",
+                  "(a,b,c) points away from the cell's fourth vertex, independent of any sign convention for cells. "
+                  "Deliberately left free (oracle accepts any): the exception class/message of any refusal (recorded for "
+                  "information; a query the text says must be answered may not raise at all); whether a query about a "
+                  "non-existent / non-incident element (face_id / edge_id of a non-face, other_face_side / common_face / "
+                  "in_cell_index / in_cell_face_index without incidence, out-of-range ids) answers None or refuses; the order "
+                  "of face_to_cells, cell_to_cell, vertex_to_cell, cell_to_edge, of the unsorted edge tables and of the six "
+                  "border/interior lists (sets, no duplicates); the start, direction and mutual offset of the sorted cell and "
+                  "face rings around an edge; the numbering of faces/edges beyond what mesh.faces/mesh.edges expose; the "
+                  "vertex / edge / face numbering of the extracted surfaces, the order and rotation of their faces "
+                  "(only outward orientation, exactness, closedness and inverse maps are required); bool vs 0/1, numpy vs "
+                  "python integers, list vs tuple vs array rows, class names, warnings, extra attributes; vertex positions "
+                  "up to 1e-9(1+|x|). The Coq correspondence is stricter (it follows the code's choices): when only it "
+                  "disagrees the verdict is `no-failing-input-found`, never a concrete violation.",
 }
 
 HEADER = """From Coq Require Import String List Arith Bool ZArith.
